@@ -489,7 +489,7 @@ Definition prev_ok (pk : pkind) (prev : list Z) (st : wstate) : Prop :=
 
 Lemma spec_number_kind s t r : spec_number s = Some (t, r) -> s_kind t = SNumber.
 Proof.
-  unfold spec_number. destruct (num_run _ _ _) as [run r0]. destruct (spec_numeral run) as [[n d]|]; [|discriminate].
+  unfold spec_number. destruct (num_split _) as [run r0]. destruct (spec_numeral run) as [[n d]|]; [|discriminate].
   intros [= <- <-]. reflexivity.
 Qed.
 
@@ -543,10 +543,7 @@ Lemma shaped_number s : shaped s -> s_kind s = SNumber ->
 Proof.
   intros (src & rest & H) K. destruct H; try discriminate K.
   - destruct (spec_number_ctx _ _ _ H0) as (run & Hr & Hne & Hs & Hctx). rewrite Hr. split.
-    + change (starts_number run) with (num_start run). rewrite <- (app_nil_r run).
-      unfold spec_number in H0. destruct (num_run (is_hex_prefix s) false s) as [run' r0] eqn:E.
-      destruct (spec_numeral run') as [[n d]|]; [|discriminate]. injection H0 as <- <-. cbn [s_raw] in Hr. subst run'.
-      subst s. eapply num_start_ctx; eassumption.
+    + change (starts_number run) with (num_start run). rewrite <- Hr. eapply spec_number_start; eassumption.
     + intros R HR. apply Hctx; assumption.
   - destruct (mem_bytes a spec_keywords); discriminate K.
   - apply spec_symbol_kind in H. congruence.
